@@ -150,9 +150,12 @@ Cli_IdleBegin ==
   /\ UNCHANGED <<script, sent, idles, cliShut, taken, pos, cur, spc, open, out>>
 
 \* the client idles for much longer than the server's timeout
+\* (a desynchronised parser - only reachable with ReadAheadLost - may sit in the middle of a "head" it will never
+\* complete; the connection timeout only covers the wait for a first byte, so the idle wait can end with the
+\* connection still open)
 Cli_IdleEnd ==
   /\ idling
-  /\ HasTimeout => ~open
+  /\ HasTimeout => (~open \/ spc = "desync")
   /\ idling' = FALSE /\ idles' = idles + 1
   /\ UNCHANGED <<script, sent, cliShut, taken, pos, cur, spc, open, out>>
 
